@@ -190,4 +190,8 @@ RECIPES = [
     # ------------------------------------------------------------------ a relative move written seek(tell() + n)
     ("C11", "neutral", [], OP4, "            self._fileh.seek(reclen + delta, 1)\n", "            self._fileh.seek(self._fileh.tell() + reclen + delta)\n", "_skipop4_binary: seek(tell() + n)"),
     ("C11", "break", ["C11-R4"], OP4, "            self._fileh.seek(reclen + delta, 1)\n", "            self._fileh.seek(self._fileh.tell() + reclen)\n", "_skipop4_binary (seek(tell() + n)): the 4 - word size correction dropped"),
+    # ------------------------------------------------------------------ obligations added in the second pass
+    ("C11", "break", ["C11-R3"], OP4, "            while nwords > 0:\n                L, r = s2(fp.read(b2))", "            while nwords >= 0:\n                L, r = s2(fp.read(b2))", "binary bigmat: one string too many per column (words left >= 0)"),
+    ("C11", "break", ["C11-R7"], OP4, "                    perline = int(numformat[:p])\n", "", "the announced values-per-line is ignored (always 5)"),
+    ("C11", "break", ["C11-R7"], OP4, "                    numlen = int(numformat[p + 1 :].split(\".\")[0])\n", "                    numlen = 16\n", "the announced field width is ignored (always 16)"),
 ]
